@@ -26,6 +26,7 @@ EXPLANATION = (
     "natural keys split names on the capturing digit-group pattern, turn all-digit groups into integers with int() "
     "and leave the rest, and the revlex key is exactly the reversed natural key."
     ' Round 5: (D5) natural keys are position-aligned (re.split with a capturing group, not groupby runs); no unsound cache.'
+    " Round 7: every exit of the product / sum arm is a FunctionCall over the node's operands (D3)."
 )
 RULE_TEXT = "instances = registry arms, emitted (name, arity) pairs vs dialect entries, predicate/consumer position pairs, refusal points, key-construction obligations; exhaustive over the dispatch registry and the dialect table"
 ASSUMPTIONS = [
